@@ -39,7 +39,7 @@ def main():
             na.append({"property_id": pid, "reason": PENDING_REASON})
     man = {
       "version": 1,
-      "setup_cmd": "cd lean && lake build",
+      "setup_cmd": "cd lean && lake build PercevalModel; for p in $(cat ../manifest.d/READY); do lake build PercevalModel.Props.$p PercevalModel.Model.$p; done; true",
       "hooks": {"guard": "PERCEVAL_VERIF", "enable": "no hooks are needed: every harness drives public or module-level API",
                 "baseline_off_cmd": "cd /repo && /venv/bin/python -m pytest -ra -q -p no:cacheprovider --timeout=900 --continue-on-collection-errors",
                 "source_commits": [], "add_only": True},
